@@ -114,6 +114,7 @@ func init() {
 		Assumptions: []string{"in-domain values as the statement and the existing suite define them: cards have non-zero dates, segments are a contiguous prefix of 1..3, control state 1..3, task type 0..12, PIN 0..999999", "a date-time whose civil time + abbreviation does not identify one instant of the zone is compared by civil fields only", "reject side: only the classes the statement lists are asserted", "tz database as installed"},
 		Plan: func(tier string) []Batch {
 			b := same(n(tier, 4, 8), Batch{Mode: "utc-deep", Timeout: 20 * time.Minute})
+			b = append(b, Batch{Mode: "tz", Race: true, Env: []string{"TZ=Europe/London"}, Timeout: 20 * time.Minute, Procs: 8}, Batch{Mode: "tz", Env: []string{"TZ=America/Santiago"}, Timeout: 20 * time.Minute, Procs: 8})
 			return append(b, zoneBatches(n(tier, 36, 0), "tz", 15*time.Minute)...)
 		}}
 }
